@@ -193,6 +193,10 @@ def run_case(case, ctx):
                 continue
             want = OS.entropy(lens) / (math.log(len(lens)) if normalize else 1.0)
             expect(ctx, "value-inf-flags", pe(ctx, Ainf, **kw), [want], "flags %r, %d infinite bars" % (kw, n_inf), extra)
+            # the same flags as NumPy booleans (what `mask.any()` or `arr[i] > 0` yields) and as 0 / 1
+            for conv, cname in ((np.bool_, "numpy booleans"), (int, "integers 0/1")):
+                kw2 = dict(kw, keep_inf=conv(keep_inf), normalize=conv(normalize))
+                expect(ctx, "value-flag-types", pe(ctx, Ainf, **kw2), [want], "flags given as %s %r, %d infinite bars" % (cname, kw, n_inf), extra)
     # a substitution value of exactly zero (falsy!) for infinite bars born below zero
     shift = max(b + l for l, b in zip(ls, births)) + 1.0
     Dneg = [[b - shift, b + l - shift] for l, b in zip(ls, births)]          # whole barcode below 0
